@@ -56,7 +56,7 @@ CONSTANTS Budget, NFuns, Sim, Masked,
           MaxParams,   \* "sigs": longest parameter list
           Rounds       \* simulation: programs per behaviour
 
-D0 == {"Int", "Float", "String", "Bool", "Nil", "T", "M"}
+D0 == {"Int", "Float", "String", "Bool", "Nil", "T", "M", "Color", "Shade"}     \* Color, Shade: types of the library module pal
 AV == {"a", "b"}
 UV == {"u1", "u2", "u3", "u4"}
 GV == AV \cup UV
@@ -66,14 +66,15 @@ Tu(s, t) == "#(" \o s \o ", " \o t \o ")"
 R(s, t)  == "Result(" \o s \o ", " \o t \o ")"
 Bx(s)    == "Box(" \o s \o ")"
 F1(s, t) == "fn(" \o s \o ") -> " \o t
+Fxt(s)   == "Fx(" \o s \o ")"            \* the prelude's generic record with a function-typed field
 Funs  == {F1(s, t) : s \in D0, t \in D0}
 Over(S) == S \cup {L(s) : s \in S} \cup {Tu(s, t) : s \in S, t \in S} \cup {R(s, t) : s \in S, t \in S}
-             \cup {Bx(s) : s \in S} \cup {F1(s, t) : s \in S, t \in S}
+             \cup {Bx(s) : s \in S} \cup {F1(s, t) : s \in S, t \in S} \cup {Fxt(s) : s \in S}
 D1  == Over(D0)        \* the monomorphic universe
 D1G == Over(DG0)       \* with type variables
 
 \* decomposition of a type of D1G: <<constructor, first component, second component>>
-PartsSet == {<<s, <<"atom", s, "">>>> : s \in DG0} \cup {<<L(s), <<"List", s, "">>>> : s \in DG0} \cup {<<Bx(s), <<"Box", s, "">>>> : s \in DG0}
+PartsSet == {<<s, <<"atom", s, "">>>> : s \in DG0} \cup {<<L(s), <<"List", s, "">>>> : s \in DG0} \cup {<<Bx(s), <<"Box", s, "">>>> : s \in DG0} \cup {<<Fxt(s), <<"Fx", s, "">>>> : s \in DG0}
             \cup {<<Tu(s, t), <<"Tuple", s, t>>>> : s \in DG0, t \in DG0} \cup {<<R(s, t), <<"Result", s, t>>>> : s \in DG0, t \in DG0}
             \cup {<<F1(s, t), <<"Fn", s, t>>>> : s \in DG0, t \in DG0}
 Parts == [ty \in D1G |-> (CHOOSE p \in PartsSet : p[1] = ty)[2]]
@@ -88,9 +89,21 @@ Subst(s, ty) == LET p == Parts[ty] IN
                 CASE p[1] = "atom"   -> Sub0(s, ty)
                   [] p[1] = "List"   -> L(Sub0(s, p[2]))
                   [] p[1] = "Box"    -> Bx(Sub0(s, p[2]))
+                  [] p[1] = "Fx"     -> Fxt(Sub0(s, p[2]))
                   [] p[1] = "Tuple"  -> Tu(Sub0(s, p[2]), Sub0(s, p[3]))
                   [] p[1] = "Result" -> R(Sub0(s, p[2]), Sub0(s, p[3]))
                   [] p[1] = "Fn"     -> F1(Sub0(s, p[2]), Sub0(s, p[3]))
+\* a type as an annotation of the generated module writes it: the library module's types are qualified (the displayed
+\* type names them without the qualifier)
+SrcAtom(x) == IF x \in {"Color", "Shade"} THEN "pal." \o x ELSE x
+Src(ty) == LET p == Parts[ty] IN
+           CASE p[1] = "atom"   -> SrcAtom(ty)
+             [] p[1] = "List"   -> L(SrcAtom(p[2]))
+             [] p[1] = "Box"    -> Bx(SrcAtom(p[2]))
+             [] p[1] = "Fx"     -> Fxt(SrcAtom(p[2]))
+             [] p[1] = "Tuple"  -> Tu(SrcAtom(p[2]), SrcAtom(p[3]))
+             [] p[1] = "Result" -> R(SrcAtom(p[2]), SrcAtom(p[3]))
+             [] p[1] = "Fn"     -> F1(SrcAtom(p[2]), SrcAtom(p[3]))
 NoSub == [v \in GV |-> "?"]
 \* the substitutions extending s under which the scheme component pat becomes val (none or one)
 Bind(s, pat, val) == IF pat \in GV THEN (IF s[pat] = "?" THEN {[s EXCEPT ![pat] = val]} ELSE IF s[pat] = val THEN {s} ELSE {})
@@ -157,6 +170,11 @@ Lit(ty) == CASE ty = "Int" -> <<T("1")>> [] ty = "Float" -> <<T("1.5")>> [] ty =
              [] ty = L("Int") -> <<T("["), T("1"), T("]")>>
              [] ty = Tu("Int", "String") -> <<T("#"), T("("), T("1"), T(","), T("\"s\""), T(")")>>
              [] ty = Bx("Int") -> <<T("Box"), T("("), T("1"), T(")")>>
+             [] ty = "Color" -> <<T("pal"), T("."), T("Red")>>
+             [] ty = "Shade" -> <<T("pal"), T("."), T("Shade"), T("("), T("pal"), T("."), T("Red"), T(","), T("1"), T(")")>>
+\* a closed function: `fn(_) { lit }` (argument of the instantiating callers of the signature sweep)
+RECURSIVE LitArg(_)
+LitArg(ty) == IF Con(ty) = "Fn" THEN <<T("fn"), T("("), T("_"), T(")"), T("{")>> \o LitArg(Y(ty)) \o <<T("}")>> ELSE Lit(ty)
 \* a pin <<operator, side of the pinned variable ("u": the operand of a prefix operator)>> fixes the variable's type to ty
 PinTypes == LitTypes
 PinsFor(ty) == (CASE ty = "Int"    -> ((IntArith \cup IntCmp) \X Sides) \cup {<<"-", "u">>}
@@ -201,7 +219,9 @@ PopToMark(fs) == IF fs = <<>> THEN <<>> ELSE IF fs[Len(fs)].m THEN SubSeq(fs, 1,
 \* atoms available in the function being generated: the monomorphic ones and its own (rigid) variables
 U0 == D0 \cup (IF cur = 0 THEN {} ELSE SigVars(sigs[cur]))
 \* types a `let` or a `case` subject is taken from (every shape but functions)
-ValueTypes == UNION {{s, L(s), Bx(s)} \cup {Tu(s, t) : t \in Pick(U0)} \cup {R(s, t) : t \in Pick(U0)} : s \in Pick(U0)}
+\* (exhaustive mode: second components of pairs and results from two representatives - the pattern sweep covers all)
+Second == IF Sim THEN Pick(U0) ELSE {"Int", "String"}
+ValueTypes == UNION {{s, L(s), Bx(s), Fxt(s)} \cup {Tu(s, t) : t \in Second} \cup {R(s, t) : t \in Second} : s \in Pick(U0)}
 
 \* function types a let may bind a lambda at (the lambda's parameter is pinned, so monomorphic)
 LocalFunTypes == {F1(s, t) : s \in Pick(D0), t \in Pick(D0)}
@@ -219,7 +239,7 @@ RECURSIVE SepArgs(_, _, _)
 SepArgs(items, i, cs) == IF i > Len(items) THEN <<>>
                          ELSE (IF i = 1 THEN <<>> ELSE IF cs = "" THEN <<T(",")>> ELSE <<Sym("ARGSEP", cs, i - 1)>>) \o items[i] \o SepArgs(items, i + 1, cs)
 \* an argument: an expression of the parameter's type (lit: the closed one without a choice)
-Arg(ty, lit) == IF lit THEN Lit(ty) ELSE <<EX(ty)>>
+Arg(ty, lit) == IF lit THEN LitArg(ty) ELSE <<EX(ty)>>
 \* positional call
 CallArgs(name, ps, nl, ret, lit) == <<T(name), Sym("CALLOPEN", CallSig(ps, nl, ret), 0)>> \o SepArgs([i \in 1..Len(ps) |-> Arg(ps[i], lit)], 1, CallSig(ps, nl, ret)) \o <<T(")")>>
 CallTo(name, ps, nl, ret) == CallArgs(name, ps, nl, ret, FALSE)
@@ -235,9 +255,13 @@ IdPerm(sg) == [i \in 1..sg.nl |-> Len(sg.ps) - sg.nl + i]
 \* instantiations of generated function k whose result is ty; variables the result does not determine range over `free`
 Fills(dom, free) == IF Sim THEN {[v \in dom |-> RandomElement(free)]} ELSE [dom -> free]
 Extend(s, f) == [v \in GV |-> IF v \in DOMAIN f THEN f[v] ELSE s[v]]
+\* (a variable inside a function-typed parameter is instantiated by a monomorphic atom: types stay one constructor deep and
+\* the argument can be a lambda with a pinned parameter)
+FnVars(k) == UNION {TyVars(sigs[k].ps[i]) : i \in {j \in 1..Len(sigs[k].ps) : sigs[k].ps[j] \notin GV}}
+InstOK(k, s) == \A v \in FnVars(k) : s[v] \in D0
 Insts(k, ty, free) == LET sv == SigVars(sigs[k]) IN
-    UNION {{Extend(s, f) : f \in Fills({v \in sv : s[v] = "?"}, free)} : s \in Match(sigs[k].ret, ty)}
-InstPs(k, s) == [i \in 1..Len(sigs[k].ps) |-> Sub0(s, sigs[k].ps[i])]
+    {e \in UNION {{Extend(s, f) : f \in Fills({v \in sv : s[v] = "?"}, free)} : s \in Match(sigs[k].ret, ty)} : InstOK(k, e)}
+InstPs(k, s) == [i \in 1..Len(sigs[k].ps) |-> Subst(s, sigs[k].ps[i])]
 FreeInst == IF Sim THEN U0 ELSE {"Int", "String"}
 Generic(k) == SigVars(sigs[k]) # {}
 \* A generic function must be generalised before its callers are inferred, so it must not lie on a cycle with them:
@@ -259,6 +283,8 @@ Prods(h) ==
     \cup { P(1, "use_neg", <<T("{"), T("let"), T("_"), T("="), T("-"), T(f[1]), T("(")>> \o Lit(X(f[2])) \o <<T(")"), EX(ty), T("}")>>) : f \in Pick({g \in FunLocals("Int") : X(g[2]) \in LitTypes}) }
     \cup { P(1, "case", <<T("case"), EX(s), T("{"), MARK, PA(s), COMMIT, T("->"), EX(ty), POPMARK, T("_"), T("->"), EX(ty), T("}")>>) : s \in Pick(ValueTypes) }
     \cup { P(1, "id_call", <<T("id"), T("("), EX(ty), T(")")>>), P(1, "wrap_call", <<T("wrap"), T("("), EX(ty), T(")")>>) }
+    \* the generic function of the library module, qualified
+    \cup { P(1, "pal_keep", <<T("pal"), T("."), T("keep"), T("("), EX(ty), T(","), EX(s), T(")")>>) : s \in Pick(U0) }
     \* calls to earlier generated functions (generalised by then): each call instantiates the callee's variables afresh
     \cup UNION {{ PK(1, "call_gen_back", CallTo("g" \o ToString(k), InstPs(k, s), sigs[k].nl, ty), k) : s \in Insts(k, ty, FreeInst) } : k \in Callable}
     \cup UNION {UNION {{ PK(1, "call_gen_labels", CallLabelled("g" \o ToString(k), InstPs(k, s), sigs[k].nl, perm, FALSE), k) : perm \in Pick(PermsOf(LabelIdx(sigs[k]))) }
@@ -266,7 +292,7 @@ Prods(h) ==
     \* the binder of a let takes the instantiated result type of the call
     \cup UNION {{ PK(1, "let_call", <<T("{"), MARK, T("let"), BIND(Subst(Extend(NoSub, f), sigs[k].ret)), T("=")>>
                                     \o CallTo("g" \o ToString(k), InstPs(k, Extend(NoSub, f)), sigs[k].nl, Subst(Extend(NoSub, f), sigs[k].ret))
-                                    \o <<COMMIT, EX(ty), POPMARK, T("}")>>, k) : f \in Fills(SigVars(sigs[k]), FreeInst)} : k \in Pick({j \in Callable : Generic(j)})}
+                                    \o <<COMMIT, EX(ty), POPMARK, T("}")>>, k) : f \in {g \in Fills(SigVars(sigs[k]), FreeInst) : InstOK(k, Extend(NoSub, g))}} : k \in Pick({j \in Callable : Generic(j)})}
     \* calls to itself and to later functions (recursion groups: the callee is not generalised yet, so only monomorphic
     \* ones, and a generic function at its own variables); to a function with labelled parameters: positionally and
     \* with the labels in any order
@@ -283,6 +309,8 @@ Prods(h) ==
             \cup { P(1, "apply_lambda", <<T("apply"), T("("), EX(s), T(","), T("fn"), T("("), MARK, LATEON, BIND(s), COMMIT, T(")")>>
                                         \o <<T("{"), EX(ty), T("}"), LATEOFF, POPMARK, T(")")>>) : s \in Pick(ValueTypes) }
             \cup { P(1, "pipe_id", <<GR(ty), T("|>"), T("id")>>) }
+            \* the function-typed field of the generic record Fx, called
+            \cup { P(1, "fx_run", <<GRS(Fxt(ty)), T("."), T("run"), T("("), EX("Int"), T(")")>>) }
             \* a function-typed local: called, piped into, passed as an argument
             \cup { P(1, "call_local", <<T(f[1]), T("("), EX(X(f[2])), T(")")>>) : f \in Pick(FunLocals(ty)) }
             \cup { P(1, "pipe_local", <<GR(X(f[2])), T("|>"), T(f[1])>>) : f \in Pick(FunLocals(ty)) }
@@ -295,7 +323,7 @@ Prods(h) ==
           ELSE {}))
     \* rules by goal type
     \cup (CASE ty = "Int" -> { P(0, "int", <<T("1")>>), P(1, "field_a", <<GRS("T"), T("."), T("a")>>),
-                                P(1, "add_fn", CallTo("add", <<"Int", "Int">>, 0, "Int")),
+                                P(1, "add_fn", CallTo("add", <<"Int", "Int">>, 0, "Int")), P(1, "shade_n", <<GRS("Shade"), T("."), T("n")>>),
                                 P(1, "pipe_add", <<GR("Int"), T("|>"), T("add"), T("("), EX("Int"), T(")")>>),
                                 \* a prefix operator is written inside its own group: after another expression a `-` would continue it
                                 P(1, "neg", <<T("{"), T("-"), GR("Int"), T("}")>>) }
@@ -318,6 +346,15 @@ Prods(h) ==
             \* component is pinned: lists always have an element, results are built by the prelude's mk_ok / mk_err
             [] ty = "M" -> { P(0, "ctor_M", <<T("M"), T("("), EX("Int"), T(","), T("key"), T(":"), EX("String"), T(","), T("value"), T(":"), EX("Float"), T(")")>>),
                              P(1, "ctor_M_swapped", <<T("M"), T("("), EX("Int"), T(","), T("value"), T(":"), EX("Float"), T(","), T("key"), T(":"), EX("String"), T(")")>>) }
+            \* the library module pal (imported, used qualified): pub type Color { Red Green }, pub type Shade { Shade(c: Color, n: Int) },
+            \* pub fn mix(a: Color, b: Color) -> Color, pub fn keep(x: a, y: b) -> a
+            [] ty = "Color" -> { P(0, "pal_red", <<T("pal"), T("."), T("Red")>>), P(1, "pal_green", <<T("pal"), T("."), T("Green")>>),
+                                 P(1, "pal_mix", <<T("pal"), T("."), T("mix"), T("("), EX("Color"), T(","), EX("Color"), T(")")>>),
+                                 P(1, "shade_c", <<GRS("Shade"), T("."), T("c")>>) }
+            [] ty = "Shade" -> { P(0, "pal_shade", <<T("pal"), T("."), T("Shade"), T("("), EX("Color"), T(","), EX("Int"), T(")")>>),
+                                 P(1, "pal_shade_labels", <<T("pal"), T("."), T("Shade"), T("("), T("n"), T(":"), EX("Int"), T(","), T("c"), T(":"), EX("Color"), T(")")>>) }
+            [] c = "Fx" -> { P(0, "fx", <<T("Fx"), T("("), EX(F1("Int", x)), T(")")>>),
+                             P(1, "fx_label", <<T("Fx"), T("("), T("run"), T(":"), EX(F1("Int", x)), T(")")>>) }
             [] c = "List" -> { P(0, "list_one", <<T("["), EX(x), T("]")>>),
                                P(1, "list_spread", <<T("["), EX(x), T(","), T(".."), EX(ty), T("]")>>) }
                              \cup { P(1, "late_use", <<T("map"), T("("), EX(L(f[1])), T(","), T("fn"), T("("), MARK, LATEON, BIND(f[1]), COMMIT, T(")"), T("{"), T(next), T("."), T(f[2]), T("}"), LATEOFF, POPMARK, T(")")>>)
@@ -348,6 +385,11 @@ Prods(h) ==
     \cup (CASE c = "List" -> { P(pc, "p_list", <<T("["), BIND(x), T(","), T(".."), BIND(ty), T("]")>>), P(pc, "p_list1", <<T("["), PA(x), T("]")>>) }
             [] c = "Tuple" -> { P(pc, "p_tuple", <<T("#"), T("("), PA(x), T(","), PA(y), T(")")>>) }
             [] c = "Result" -> { P(pc, "p_ok", <<T("Ok"), T("("), PA(x), T(")")>>), P(pc, "p_error", <<T("Error"), T("("), PA(y), T(")")>>) }
+            [] ty = "Color" -> { P(pc, "p_red", <<T("pal"), T("."), T("Red")>>), P(pc, "p_green", <<T("pal"), T("."), T("Green")>>) }
+            [] ty = "Shade" -> { P(pc, "p_shade", <<T("pal"), T("."), T("Shade"), T("("), PA("Color"), T(","), PA("Int"), T(")")>>),
+                                 P(pc, "p_shade_labels", <<T("pal"), T("."), T("Shade"), T("("), T("n"), T(":"), PA("Int"), T(","), T("c"), T(":"), PA("Color"), T(")")>>),
+                                 P(pc, "p_shade_spread", <<T("pal"), T("."), T("Shade"), T("("), PA("Color"), T(","), T(".."), T(")")>>) }
+            [] c = "Fx" -> { P(pc, "p_fx", <<T("Fx"), T("("), PA(F1("Int", x)), T(")")>>) }
             [] c = "Box" -> { P(pc, "p_box", <<T("Box"), T("("), PA(x), T(")")>>), P(pc, "p_box_label", <<T("Box"), T("("), T("inner"), T(":"), PA(x), T(")")>>) }
             [] ty = "T" -> { P(pc, "p_T", <<T("T"), T("("), T("a"), T(":"), PA("Int"), T(","), T("b"), T(":"), PA("String"), T(")")>>),
                              P(pc, "p_T_spread", <<T("T"), T("("), PA("Int"), T(","), T(".."), T(")")>>) }
@@ -359,7 +401,7 @@ Prods(h) ==
             [] ty = "Bool" -> { P(pc, "p_true", <<T("True")>>) }
             [] OTHER -> {})
           \* `x as y` on a plain variable is a recorded parser finding (C04 F13): only structured patterns get `as`
-          \cup (IF h.n = 0 /\ (c \in {"List", "Tuple", "Result", "Box"} \/ ty \in {"T", "M", "String", "Int", "Bool"}) THEN { P(1, "p_as", <<Sym("PAT", ty, 1), T("as"), BIND(ty)>>) } ELSE {})
+          \cup (IF h.n = 0 /\ (c \in {"List", "Tuple", "Result", "Box", "Fx"} \/ ty \in {"T", "M", "String", "Int", "Bool", "Color", "Shade"}) THEN { P(1, "p_as", <<Sym("PAT", ty, 1), T("as"), BIND(ty)>>) } ELSE {})
   ELSE {}
 
 -----------------------------------------------------------------------------
@@ -379,7 +421,7 @@ Inst2 == [v \in GV |-> CASE v = "a" -> "String" [] v = "b" -> "Float" [] v = "u1
 \* fn gk() { let v = g1(..at Inst1) let w = g1(..at Inst2) let x = g1(..labels in every order) Nil }
 CallerToks(ss, k) ==
     LET sg == ss[1]
-        ps(s) == [i \in 1..Len(sg.ps) |-> Sub0(s, sg.ps[i])]
+        ps(s) == [i \in 1..Len(sg.ps) |-> Subst(s, sg.ps[i])]
         one(s, call) == <<T("let"), BIND(Subst(s, sg.ret)), T("=")>> \o call \o <<COMMIT>>
         perms == SetToSeq(IF sg.nl = 0 THEN {} ELSE PermsOf(LabelIdx(sg)))
     IN <<Sym("FUNSTART", "", k), T("fn"), Sym("FUNNAME", "", k), T("("), T(")"), T("{"), MARK>>
@@ -390,7 +432,7 @@ CallerToks(ss, k) ==
 Choice == {"EXPR", "EXPRP", "PAT"}
 Plain == {"T", "CALLOPEN", "ARGSEP", "TY"}           \* symbols that are just written out
 TokOf(h) == CASE h.s = "T" -> Tok(h.x, "tok", "") [] h.s = "CALLOPEN" -> Tok("(", "callopen", h.x)
-              [] h.s = "ARGSEP" -> Tok(",", "argsep" \o ToString(h.n), h.x) [] h.s = "TY" -> Tok(h.x, "type", "")
+              [] h.s = "ARGSEP" -> Tok(",", "argsep" \o ToString(h.n), h.x) [] h.s = "TY" -> Tok(Src(h.x), "type", "")
 RECURSIVE PlainLen(_, _)
 PlainLen(td, i) == IF i <= Len(td) /\ td[i].s \in Plain THEN PlainLen(td, i + 1) ELSE i - 1
 Det(st) ==
@@ -432,21 +474,29 @@ Init == /\ todo = <<>> /\ out = <<>> /\ env = <<>> /\ budget = Budget /\ sigs = 
 -----------------------------------------------------------------------------
 \* Signatures first.
 ParamTypes == D0 \cup {L("Int"), Tu("Int", "String"), Bx("Int"), R("Int", "String")}
-BfsRets    == D0 \cup {L("Int"), Tu("Int", "String"), R("Int", "String"), Bx("Int"), F1("Int", "Int"), F1("Float", "Int"), F1("Bool", "Int"), F1("String", "Int")}
+BfsRets    == D0 \cup {Fxt("Float"), L("Int"), Tu("Int", "String"), R("Int", "String"), Bx("Int"), F1("Int", "Int"), F1("Float", "Int"), F1("Bool", "Int"), F1("String", "Int")}
 Ann(t)  == [t |-> t, kd |-> Kd("ann", NoPin)]
 Free(i) == [t |-> "u" \o ToString(i), kd |-> Kd("free", NoPin)]
 Pinned(t, pin) == [t |-> t, kd |-> Kd("pin", pin)]
 \* simulation: the kind of parameter i by a class drawn from 1..9
-KindSet(cl, i) == IF cl <= 2 THEN {Ann(t) : t \in ParamTypes} ELSE IF cl = 3 THEN {Ann(t) : t \in Pick(Funs)} ELSE IF cl <= 5 THEN {Ann(t) : t \in AV} ELSE IF cl <= 7 THEN {Free(i)}
+KindSet(cl, i) == IF cl <= 2 THEN {Ann(t) : t \in ParamTypes} ELSE IF cl = 3 THEN {Ann(F1(x, y)) : x \in Pick(D0 \cup AV), y \in Pick(D0 \cup AV)} ELSE IF cl <= 5 THEN {Ann(t) : t \in AV} ELSE IF cl <= 7 THEN {Free(i)}
                   ELSE UNION {{Pinned(t, pin) : pin \in Pick(Pins(t))} : t \in Pick(PinTypes)}
 \* result types of a generic function over its variables vs
 GenRets(vs) == UNION {{v, L(v), Bx(v)} \cup {Tu(v, w) : w \in vs} \cup {R(v, w) : w \in vs}
                       \cup UNION {{Tu(v, m), Tu(m, v), R(v, m), R(m, v)} : m \in Pick(D0)} : v \in vs}
+\* a variable inside a function-type annotation is also the type of a parameter (so a value of it is at hand in the body);
+\* otherwise the annotation is read at Int
+Bare(ks) == {ks[i].t : i \in 1..Len(ks)} \cap GV
+FixKinds(ks) == LET s == [v \in GV |-> IF v \in Bare(ks) THEN "?" ELSE "Int"] IN
+                [i \in 1..Len(ks) |-> IF ks[i].t \in GV THEN ks[i] ELSE [ks[i] EXCEPT !.t = Subst(s, @)]]
 MkSig(ks, nl, r, ra) == Sig([i \in 1..Len(ks) |-> ks[i].t], [i \in 1..Len(ks) |-> ks[i].kd], nl, r, ra /\ CanAnnotate(r))
 \* exhaustive "sigs": every parameter list over a kind alphabet (an atomic and a composite annotation, both annotation
 \* variables, a free and a pinned parameter), every result that is a variable, a pair of two variables, or a list
 SweepKinds(i) == {Ann("Int"), Ann(L("Int")), Ann("a"), Ann("b"), Free(i), Pinned("Int", <<"+", "l">>)}
 SweepRets(vs) == IF vs = {} THEN {"Int"} ELSE vs \cup {Tu(p[1], p[2]) : p \in {q \in vs \X vs : q[1] # q[2]}} \cup {L(CHOOSE v \in vs : TRUE)}
+\* exhaustive "sigs", function-type annotations that mention variables: lists up to length 3 with at least one of them
+FnKinds == {Ann(F1("a", "Int")), Ann(F1("Int", "a")), Ann(F1("a", "b"))}
+FnSweepKinds == FnKinds \cup {Ann("a"), Ann("b"), Ann("Int")}
 \* exhaustive "sigs", labels: parameter lists over {Int, String, a} with the last nl labelled
 LabelKinds == {Ann("Int"), Ann("String"), Ann("a")}
 \* exhaustive "rules" inside a generic function
@@ -460,7 +510,7 @@ Header ==
      THEN \E n \in Pick(0..4) : \E c1 \in Pick(1..9), c2 \in Pick(1..9), c3 \in Pick(1..9), c4 \in Pick(1..9) :
           \E k1 \in Pick(KindSet(c1, 1)), k2 \in Pick(KindSet(c2, 2)), k3 \in Pick(KindSet(c3, 3)), k4 \in Pick(KindSet(c4, 4)) :
           \E nl \in Pick(0..n) : \E rc \in Pick(1..3) : \E ra \in Pick(BOOLEAN) :
-            LET ks == SubSeq(<<k1, k2, k3, k4>>, 1, n)
+            LET ks == FixKinds(SubSeq(<<k1, k2, k3, k4>>, 1, n))
                 vs == {ks[i].t : i \in 1..n} \cap GV
             IN \E r \in Pick(IF vs = {} \/ rc = 1 THEN D1 ELSE GenRets(vs)) :
                  /\ sigs' = Append(sigs, MkSig(ks, nl, r, IF r \in D0 THEN FALSE ELSE IF r \in D1 THEN TRUE ELSE ra))
@@ -491,6 +541,13 @@ Header ==
                   \/ \E n \in 0..MaxParams : \E ks \in [1..n -> UNION {SweepKinds(i) : i \in 1..4}] :
                        /\ \A i \in 1..n : ks[i] \in SweepKinds(i)
                        /\ \E r \in SweepRets({ks[i].t : i \in 1..n} \cap GV) :
+                            /\ sigs' = <<MkSig(ks, 0, r, TRUE), CallerSig>>
+                            /\ Become(Run(Conf(<<Sym("FUN", "", 1), Sym("CALLER", "", 2)>>, sigs', Budget)))
+                  \* function-typed parameters that share variables with other parameters and the result
+                  \/ \E n \in 2..3 : \E ks \in [1..n -> FnSweepKinds] :
+                       /\ \E i \in 1..n : ks[i] \in FnKinds
+                       /\ \A i \in 1..n : TyVars(ks[i].t) \subseteq Bare(ks)
+                       /\ \E r \in SweepRets(Bare(ks)) :
                             /\ sigs' = <<MkSig(ks, 0, r, TRUE), CallerSig>>
                             /\ Become(Run(Conf(<<Sym("FUN", "", 1), Sym("CALLER", "", 2)>>, sigs', Budget)))
                   \* labelled parameters, called with the labels in every order
@@ -533,7 +590,7 @@ BindersTyped == \A i \in 1..Len(out) : out[i].r = "binder" => out[i].ty \in D1G
 \* annotation, a pin fixes a type it can fix, labelled parameters come last
 SigsWellFormed == \A k \in 1..Len(sigs) : LET sg == sigs[k] IN
                     /\ TyVars(sg.ret) \subseteq SigVars(sg) /\ (sg.rann => CanAnnotate(sg.ret)) /\ sg.nl <= Len(sg.ps)
-                    /\ \A i \in 1..Len(sg.ps) : /\ sg.ps[i] \in D1G
+                    /\ \A i \in 1..Len(sg.ps) : /\ sg.ps[i] \in D1G /\ TyVars(sg.ps[i]) \subseteq SigVars(sg)
                                                 /\ (sg.kd[i].k = "ann" => CanAnnotate(sg.ps[i]))
                                                 /\ (sg.kd[i].k = "free" => sg.ps[i] \in UV /\ \A j \in 1..Len(sg.ps) : j # i => sg.ps[j] # sg.ps[i])
                                                 /\ (sg.kd[i].k = "pin" => sg.kd[i].pin \in PinsFor(sg.ps[i]))
